@@ -92,13 +92,14 @@ func c06Check(cc C06Case, rec *Recorder) *Disc {
 	if err := m1.Reconfigure(m1.Config()); err != nil {
 		return discf("cfg %+v: m.Reconfigure(m.Config()) fails: %v (Config() = %s)", c, err, cfgJSON(c2))
 	}
-	after := SuiteSig(m1.Wrap, suite) // debug must still be on
+	wrap1 := oneWrap(m1.Wrap)       // one wrapped handler across SetDebug
+	after := SuiteSig(wrap1, suite) // debug must still be on
 	rec.Eval(len(suite))
 	if i := firstDiff(base[1], after); i >= 0 {
 		return discf("cfg %+v: after m.Reconfigure(m.Config()) in debug mode, {%s} is answered %s instead of %s", c, suite[i].Brief(), abbrev(after[i], 400), abbrev(base[1][i], 400))
 	}
 	m1.SetDebug(false)
-	after = SuiteSig(m1.Wrap, suite)
+	after = SuiteSig(wrap1, suite)
 	if i := firstDiff(base[0], after); i >= 0 {
 		return discf("cfg %+v: after m.Reconfigure(m.Config()), {%s} is answered %s instead of %s", c, suite[i].Brief(), abbrev(after[i], 400), abbrev(base[0][i], 400))
 	}
